@@ -83,7 +83,10 @@ type Q struct {
 	// ParamField supplies the interval of field path of a struct parameter
 	// as received (before any store to the local copy).
 	ParamField func(p *ssa.Parameter, path string) Iv
-	busy       map[busyKey]bool
+	// FreeField supplies, inside a closure, the interval of (field path of) a
+	// captured variable as it is when the closure is entered.
+	FreeField func(fv *ssa.FreeVar, path string) Iv
+	busy      map[busyKey]bool
 }
 
 // DebugRel traces relational facts.
@@ -973,6 +976,21 @@ func (q *Q) load(u *ssa.UnOp) Iv {
 		return Iv{}
 	}
 	ver := q.F.Version(u)
+	if DebugRel {
+		println("load", q.F.Plain(u), "key", key, "loc", loc, "ver", ver)
+	}
+	if ver == "0" && q.FreeField != nil {
+		// not written since the closure was entered: the captured variable's
+		// value at the call
+		switch a := u.X.(type) {
+		case *ssa.FreeVar:
+			return q.FreeField(a, "")
+		case *ssa.FieldAddr:
+			if fv, ok := a.X.(*ssa.FreeVar); ok {
+				return q.FreeField(fv, ssau.FieldName(a))
+			}
+		}
+	}
 	return q.memVersion(key, loc, ver, map[string]bool{})
 }
 
